@@ -581,6 +581,163 @@ static void owner_bfs(int seed, int maxdepth, uint64_t& caseidx)
   sample("{\"level\":\"owner\",\"seed_fillers\":" + std::to_string(seed) + ",\"depth\":" + std::to_string(maxdepth) + ",\"states\":" + std::to_string(local_states) + "}", 50);
 }
 
+
+// ---- owners of TWO sandbox objects -------------------------------------------------------------------------------
+// Three owners, each holding a registration of sandbox object 0 or 1 (or none). Operations: G s i (own[i] = sb[s].get_app_pointer),
+// M i j (own[i] = std::move(own[j]), also across the two objects), U i (unregister), X i (destroy the owner object and make a new empty one).
+// After every operation, in each of the two tables: every token ever issued there resolves to its pointer iff a live owner holds it
+// there, dead ones abort; owners report their own token / emptiness. A history ends at the first abort.
+struct TwoRun
+{
+  sbx_t sb[2];
+  std::optional<AP> own[3];
+  int st[3] = { 1, 1, 1 };  // 1 empty, 2 live
+  int of[3] = { -1, -1, -1 }; // sandbox object of the registration
+  uint64_t tok[3] = { 0, 0, 0 };
+  int obj[3] = { -1, -1, -1 }; // which application object the registration designates
+  std::map<uint64_t, int> live[2]; // token -> application object index
+  std::set<uint64_t> ever[2];
+  std::string hist;
+  bool crashed = false;
+};
+static int g_objs2[3];
+static void two_check(TwoRun& r, const std::string& k)
+{
+  for (int s = 0; s < 2; s++)
+    for (uint64_t t : r.ever[s]) {
+      auto tp = rlbox::tainted<int*, SB>::internal_factory(reinterpret_cast<int*>(r.sb[s].get_sandbox_impl()->base + t));
+      int* got = nullptr;
+      auto o = attempt([&] { got = r.sb[s].lookup_app_ptr(tp); });
+      n_eval++;
+      auto it = r.live[s].find(t);
+      std::string d = "sandbox object " + std::to_string(s) + " token " + std::to_string(t);
+      if (it != r.live[s].end()) {
+        if (o != RET) viol("C15 level=two-sandboxes op=lookup kind=live-token-aborts", k, d + ": a live owner holds it, the token no longer resolves");
+        else if (got != &g_objs2[it->second]) viol("C15 level=two-sandboxes op=lookup kind=wrong-pointer", k, d);
+      } else if (o != ABORT) {
+        viol("C15 level=two-sandboxes op=lookup kind=released-token-still-resolves", k, d + " belongs to no live owner but lookup_app_ptr still returns a pointer");
+      }
+    }
+  for (int i = 0; i < 3; i++) {
+    bool un = r.own[i]->is_unregistered();
+    if (un != (r.st[i] != 2)) viol("C15 level=two-sandboxes op=is_unregistered kind=mismatch", k, "owner " + std::to_string(i));
+    if (r.st[i] == 2 && !un) {
+      uint64_t t = (uint64_t)r.own[i]->UNSAFE_sandboxed(r.sb[r.of[i]]);
+      if (t != r.tok[i]) viol("C15 level=two-sandboxes op=token kind=owner-token-changed", k, "owner " + std::to_string(i));
+    }
+  }
+}
+static void two_release(TwoRun& r, int i)
+{
+  if (r.st[i] == 2) r.live[r.of[i]].erase(r.tok[i]);
+  r.st[i] = 1;
+}
+static bool two_apply(TwoRun& r, const Op& op)
+{
+  std::string k = "two:" + r.hist + " " + opstr(op);
+  n_trans++;
+  long long before = g_nviol;
+  switch (op.kind) {
+    case 'G': { // own[j] = sb[i].get_app_pointer(&obj_j)
+      int s = op.i, i = op.j;
+      auto o = attempt([&] { *r.own[i] = r.sb[s].get_app_pointer(&g_objs2[i]); });
+      if (o != RET) { viol("C15 level=two-sandboxes op=get kind=spurious-abort", k, "tokens are free"); return false; }
+      two_release(r, i);
+      uint64_t t = (uint64_t)r.own[i]->UNSAFE_sandboxed(r.sb[s]);
+      if (t == 0 || t > kLimit) viol("C15 level=two-sandboxes op=get kind=token-out-of-range", k, std::to_string(t));
+      if (r.live[s].count(t)) viol("C15 level=two-sandboxes op=get kind=duplicate-token", k, "token " + std::to_string(t) + " of sandbox object " + std::to_string(s) + " is still owned by a live owner");
+      r.st[i] = 2; r.of[i] = s; r.tok[i] = t; r.obj[i] = i; r.live[s][t] = i; r.ever[s].insert(t);
+      break;
+    }
+    case 'M': { // own[i] = std::move(own[j])
+      if (op.i == op.j) return true;
+      if (attempt([&] { *r.own[op.i] = std::move(*r.own[op.j]); }) != RET) { viol("C15 level=two-sandboxes op=move-assign kind=abort", k, "move assignment aborted"); return false; }
+      two_release(r, op.i);
+      if (r.st[op.j] == 2) {
+        r.st[op.i] = 2; r.of[op.i] = r.of[op.j]; r.tok[op.i] = r.tok[op.j]; r.obj[op.i] = r.obj[op.j];
+      }
+      r.st[op.j] = 1;
+      break;
+    }
+    case 'U':
+      if (attempt([&] { r.own[op.i]->unregister(); }) != RET) { viol("C15 level=two-sandboxes op=unregister kind=abort", k, "unregister aborted"); return false; }
+      two_release(r, op.i);
+      break;
+    case 'X':
+      if (attempt([&] { r.own[op.i].reset(); }) != RET) { viol("C15 level=two-sandboxes op=destroy-owner kind=abort", k, "destroying an owner aborted"); return false; }
+      two_release(r, op.i);
+      r.own[op.i].emplace();
+      break;
+  }
+  r.hist += (r.hist.empty() ? "" : " ") + opstr(op);
+  two_check(r, k);
+  return g_nviol == before;
+}
+// the registered pointer follows the registration: owner index in live[] is only used to find the pointer, so keep a pointer id per registration
+static bool two_replay(TwoRun& r, const std::vector<Op>& h)
+{
+  r.sb[0].create_sandbox(0);
+  r.sb[1].create_sandbox(1);
+  for (int i = 0; i < 3; i++) r.own[i].emplace();
+  for (auto& op : h)
+    if (!two_apply(r, op)) return false;
+  return true;
+}
+static void two_teardown(TwoRun& r)
+{
+  for (int i = 0; i < 3; i++) {
+    try { r.own[i].reset(); } catch (...) {}
+  }
+  for (int s = 0; s < 2; s++) {
+    try { r.sb[s].destroy_sandbox(); } catch (...) {}
+  }
+}
+static std::string two_key(TwoRun& r)
+{
+  std::string k;
+  for (int i = 0; i < 3; i++) k += std::to_string(r.st[i]) + ":" + std::to_string(r.of[i] * (r.st[i] == 2)) + ":" + std::to_string(r.st[i] == 2 ? r.tok[i] : 0) + ",";
+  for (int s = 0; s < 2; s++) {
+    k += "|";
+    for (uint64_t t : r.ever[s]) k += std::to_string(t) + (r.live[s].count(t) ? "L" : "d");
+    // the table's own cursor is part of the state (it decides the next token)
+    k += "c" + std::to_string((uint64_t)r.sb[s].app_ptr_map.counter);
+  }
+  return k;
+}
+static void two_bfs(int maxdepth)
+{
+  std::vector<Op> alpha;
+  for (int s = 0; s < 2; s++) for (int i = 0; i < 3; i++) alpha.push_back({ 'G', s, i });
+  for (int i = 0; i < 3; i++) for (int j = 0; j < 3; j++) if (i != j) alpha.push_back({ 'M', i, j });
+  for (int i = 0; i < 3; i++) alpha.push_back({ 'U', i, 0 });
+  for (int i = 0; i < 3; i++) alpha.push_back({ 'X', i, 0 });
+  std::deque<std::vector<Op>> frontier;
+  std::unordered_set<std::string> seen;
+  frontier.push_back({});
+  seen.insert("init");
+  long long local = 0;
+  while (!frontier.empty()) {
+    auto h = std::move(frontier.front());
+    frontier.pop_front();
+    local++;
+    n_states++;
+    if ((int)h.size() >= maxdepth) continue;
+    if (expired()) return;
+    for (auto& op : alpha) {
+      auto h2 = h;
+      h2.push_back(op);
+      TwoRun r;
+      bool ok = two_replay(r, h2);
+      if (ok) {
+        auto k = two_key(r);
+        if (seen.insert(k).second) frontier.push_back(h2);
+      }
+      two_teardown(r);
+    }
+  }
+  sample("{\"level\":\"two-sandboxes\",\"depth\":" + std::to_string(maxdepth) + ",\"states\":" + std::to_string(local) + "}", 50);
+}
+
 static std::vector<Op> parse_hist(const std::string& s, int& seed)
 {
   std::vector<Op> h;
@@ -599,7 +756,14 @@ int main(int argc, char** argv)
   std::string what = opt("--what", "all");
   if (g_args.replay) {
     std::string rp = g_args.replay;
-    if (rp.rfind("owner:", 0) == 0) {
+    if (rp.rfind("two:", 0) == 0) {
+      std::vector<Op> h;
+      for (auto& w : split(rp.substr(4), ' '))
+        if (w.size() == 3) h.push_back({ w[0], w[1] - '0', w[2] - '0' });
+      TwoRun r;
+      two_replay(r, h);
+      two_teardown(r);
+    } else if (rp.rfind("owner:", 0) == 0) {
       int seed = 0;
       auto h = parse_hist(rp, seed);
       OwnerRun r;
@@ -650,6 +814,7 @@ int main(int argc, char** argv)
     int depth = g_thorough ? 5 : 4;
     for (int si = 0; si < 5; si++)
       if (mine(100 + si)) owner_bfs(seeds[si], seeds[si] == 0 ? depth : depth, ci);
+    if (mine(105)) two_bfs(g_thorough ? 6 : 5);
   }
   stat("states", n_states);
   stat("transitions", n_trans);
